@@ -16,11 +16,14 @@ var pureIfaceMethods = map[string]bool{
 	"RequireTransportSecurity": true, // credentials.PerRPCCredentials: a constant property of the credential
 	"Info":                     true, // credentials.TransportCredentials.Info(): static protocol description
 	"TransportCredentials":     true, // credentials.Bundle: the bundle's transport credentials
+	// by full name:
+	"(google.golang.org/grpc/mem.Buffer).Len":          true, // length of a live buffer: constant between Ref/Free
+	"(google.golang.org/grpc/mem.Buffer).ReadOnlyData": true, // the buffer's bytes (same slice for a live buffer)
 }
 
 func (x *Exec) pureIfaceCall(c *ssa.CallCommon, recv Term, args []Val) (Val, bool) {
 	name := c.Method.Name()
-	if !pureIfaceMethods[name] || len(args) != 0 {
+	if !(pureIfaceMethods[name] || pureIfaceMethods[c.Method.FullName()]) || len(args) != 0 {
 		return Val{}, false
 	}
 	sig := c.Signature()
